@@ -145,7 +145,7 @@ def run_batch(prop, batch_seed, tier, nruns, budget_s, workers=None, chunk=None,
               per_task_timeout=600, nsamples=3, progress=None):
     engine = load_engine(prop)  # import in the parent so forked workers inherit warm modules
     if hasattr(engine, "warmup"):
-        engine.warmup()
+        engine.warmup(tier)
     if workers is None:
         workers = min(16, os.cpu_count() or 1)
     workers = max(1, int(os.environ.get("VERIF_WORKERS", workers)))
